@@ -155,6 +155,27 @@ package check
 //@   at call recvFourFile#* before assert[declaration-is-ignored-in-its-own-file-only] streq(arg3, referenceParam.fileName) && arg2 == referenceParam.ignoreDefineLoc && arg0 == defineVecs
 //@ end
 
+// ---- C15 / C01: the parent walk of the class-field and assign-type checks terminates on cyclic inheritance ----
+// a class already looked at is not entered again, and a class is marked before its parents are walked: every
+// activation marks a class that was unmarked, so the recursion depth is bounded by the number of classes
+// (until fix: `---@class A : B` / `---@class B : A` overflowed the stack - an unrecoverable crash of the server)
+//@ func (*AllProject).isFieldOfClassVisit
+//@   props C15 C01
+//@   requires visited != nil
+//@   ensures[a-class-already-visited-is-not-entered-again] old(has(visited, className) && visited[className]) ==> !result && hits("isFieldOfClassVisit#0") == 0
+//@   at call isFieldOfClassVisit#0 before assert[parents-are-walked-with-the-same-visited-set] arg3 == visited && streq(arg1, fieldName)
+// (the marking is the first thing an activation does; it is stated on the path of an unknown class name, which reaches no loop -
+//  at a loop head the map of marks is havocked by the write summary of the recursive call, so "still marked" is not derivable there)
+//@   ensures[own-class-is-marked] !has(a.createTypeMap, className) ==> visited[className]
+//@ end
+//@ func (*AllProject).getFieldTypeOfClassVisit
+//@   props C15 C01
+//@   requires visited != nil
+//@   ensures[a-class-already-visited-is-not-entered-again] old(has(visited, className) && visited[className]) ==> hits("getFieldTypeOfClassVisit#0") == 0
+//@   at call getFieldTypeOfClassVisit#0 before assert[parents-are-walked-with-the-same-visited-set] arg3 == visited && arg2 == retFieldType
+//@   ensures[own-class-is-marked] !has(a.createTypeMap, className) ==> visited[className]
+//@ end
+
 // ---- C15: members of a class come from EVERY definition of the class name ----
 // A class may be declared in several files; when it is not declared in the current file all its definitions are
 // examined (already visited ones are skipped, the scan goes on).
